@@ -49,6 +49,17 @@ SEEDS = {
  "C08c": dict(property="C08", needs="reusable executor first created small (1 worker) and later resized beyond 2*initial+1: the call queue keeps the small size computed from the first max_workers"),
  "C09c": dict(property="C09", needs="a second thread enters get_reusable_executor while another caller is creating or replacing the singleton (cold start, broken or shut-down previous instance, changed arguments): the singleton is read before the lock is taken"),
  "C10c": dict(property="C10", needs="a worker dies during the spawn step of a growing resize and the manager thread examines the exit codes (iterating the live _processes dict) while the user thread inserts the new workers"),
+ "C05c": dict(property="C05", needs="a worker's idle timeout fires just before the shutdown sentinel arrives and it reaches processes_management_lock (now a blocking acquire) after the manager entered its final join holding that lock: worker and manager wait for each other"),
+ "C11c": dict(property="C11", needs="a request line with a non-ASCII byte on the tracker pipe: the pipe is opened in text mode, the decode error is raised by readline() outside the per-request try and ends the tracker (early end-of-life sweep)"),
+ "C12c": dict(property="C12", needs="tracker dead or not yet started and two threads of one process doing a tracked operation: the liveness probe runs outside the lock, the second thread takes the fresh fd for a dead one, closes it (orphaning a living tracker, whose clean-up runs) and launches another"),
+ "C13c": dict(property="C13", needs="a SemLock creation colliding with the name of a living semaphore of the same tracker family (explicit name reused, or the retry loop drawing a taken name), then SIGKILL of the owner: the undo of the early registration erases the owner's registration"),
+ "C14c": dict(property="C14", needs="two or more waiters' time-outs firing inside one notify_all() after it counted them as sleepers: only one of the unused wake-up tokens is drained, the next wait returns True at once / the next notify trips the internal assertion"),
+ "C15c": dict(property="C15", needs="get_reusable_executor replacing an existing instance (changed arguments, broken, shut down) with result_reducers different from job_reducers: the recursive call drops result_reducers"),
+ "C16c": dict(property="C16", needs="the same wrapper object pickled twice with a change of the wrapped object's state in between: the second send carries the bytes memoised at the first"),
+ "C17c": dict(property="C17", needs="os.sched_getaffinity unusable (missing or NotImplementedError) + psutil installed + affinity mask smaller than the OS count: hasattr is tested on the psutil module instead of the Process object"),
+ "C18c": dict(property="C18", needs="parent started with python -m <module> (its __main__ has a __spec__.name) under the default loky start method: the init_main_module guard no longer covers the from-name branch, every worker re-runs the parent's main"),
+ "C19c": dict(property="C19", needs="a worker initializer that creates a nested executor: _CURRENT_DEPTH is assigned after the initializer ran (reverse of the F14 repair)"),
+ "C20c": dict(property="C20", needs="executor lifecycle ending without a blocking shutdown (shutdown(wait=False) or dropping the last reference): the weak-keyed registry of manager threads stores a bound method of its own key, the finished thread with its queues (6 semaphores, 1 fd) lives for ever"),
  "C20b": dict(property="C20", needs="kill-type lifecycle + worker with descendants one of which vanishes during the kill: kill_process_tree returns early, the worker is neither killed nor joined (child, fd, semaphore accumulate)"),
 }
 DETECTED = json.load(open(os.path.join(ROOT, "seeded", "detected.json"))) if os.path.exists(os.path.join(ROOT, "seeded", "detected.json")) else {}
